@@ -30,6 +30,7 @@ import DSymVerif.Proofs.LowIndexCanon6
 import DSymVerif.Proofs.LowIndexMain
 import DSymVerif.Proofs.LowIndexGeneral
 import DSymVerif.Proofs.LowIndexClasses
+import DSymVerif.Proofs.LowIndexFuel
 
 namespace DSymVerif.C12
 open DSymVerif DSymVerif.Cosets DSymVerif.LowIndexP DSymVerif.SpecC11 DSymVerif.SpecC12 DSymVerif.RebaseP DSymVerif.CosetInvP DSymVerif.CanonP
@@ -319,6 +320,70 @@ theorem coset_tables_subgroup_classes (n : Nat) (rels : List (List Int)) (k fuel
         (Outcome.ok t') ∈ cosetTables n rels k fuel ∧ t'.view = .ok v ∧
           SubConj H (CosetP.stab0 hv)) :=
   cosetTables_subgroup_classes n rels k fuel hlet hf
+
+/-! ### the fuel is not a hypothesis: `searchFuel n k` exhausts the search tree -/
+
+/-- ✔ **fuel adequacy**: the search tree of `coset_tables(n, rels, k)` has at most
+    `searchFuel n k = (max k 1 + 1)^(k·2n + 1)` nodes — every node has at most `max k 1` children
+    (one per candidate row for its first free slot) and every child fills one more of the
+    `k·2n` slots of the first `k` rows (`children_decrease`).  Hence every fuel
+    `≥ searchFuel n k` satisfies the fuel hypothesis of the theorems of this file. -/
+theorem coset_tables_fuel_adequate (n : Nat) (rels : List (List Int)) (k fuel : Nat)
+    (h : searchFuel n k ≤ fuel) :
+    (BT.dfs (btProblem n (expandedRelatorSet rels) k) (height k) (.ok (Table.new n))).length ≤ fuel :=
+  fuelOK_of_ge_searchFuel n rels k fuel h
+
+/-- ✔ more fuel than `searchFuel n k` changes nothing (the iterator stops when its stack is
+    empty; the Rust iterator has no fuel) -/
+theorem coset_tables_more_fuel_same (n : Nat) (rels : List (List Int)) (k fuel : Nat)
+    (h : searchFuel n k ≤ fuel) :
+    cosetTables n rels k fuel = cosetTables n rels k (searchFuel n k) :=
+  cosetTables_more_fuel_same n rels k fuel h
+
+/-- ✔ `extract_valid` without a fuel hypothesis -/
+theorem extract_valid_nofuel (n : Nat) (rels : List (List Int)) (k : Nat)
+    (hlet : ∀ w ∈ rels, ∀ x ∈ w, x ∈ allGensOf n) :
+    ∀ x ∈ cosetTables n rels k (searchFuel n k), ∀ t', x = .ok t' →
+      ∃ v, t'.view = .ok v ∧ validTable (viewTab v) n rels [] = true ∧ (viewTab v).size ≤ max k 1 :=
+  extract_valid n rels k _ hlet (cosetTables_fuel_adequate n rels k)
+
+/-- ✔ `search_never_panics` without a fuel hypothesis -/
+theorem search_never_panics_nofuel (n : Nat) (rels : List (List Int)) (k : Nat)
+    (hlet : ∀ w ∈ rels, ∀ x ∈ w, x ∈ allGensOf n) :
+    ∀ x ∈ cosetTables n rels k (searchFuel n k), ∃ t' v, x = .ok t' ∧ t'.view = .ok v ∧
+      (viewTab v).size = t'.len ∧
+      ∀ j, j < t'.len → ∀ g ∈ allGensOf n, ∃ d, t'.get j g = .ok (some d) ∧ entry (viewTab v) n j g = some d :=
+  search_never_panics n rels k _ hlet (cosetTables_fuel_adequate n rels k)
+
+/-- ✔ **C12 for the model, no hypothesis but the letters**: `coset_tables_complete_irredundant`
+    for the fuel `searchFuel n k` (and, by `coset_tables_more_fuel_same`, for every larger one) -/
+theorem coset_tables_complete_irredundant_nofuel (n : Nat) (rels : List (List Int)) (k : Nat)
+    (hlet : ∀ w ∈ rels, ∀ x ∈ w, x ∈ allGensOf n) :
+    (∀ x ∈ cosetTables n rels k (searchFuel n k), ∃ t' v, x = .ok t' ∧ t'.view = .ok v ∧
+      validTable (viewTab v) n rels [] = true ∧ (viewTab v).size ≤ max k 1) ∧
+    (cosetTables n rels k (searchFuel n k)).Pairwise (fun x y => ∀ t1 t2 v1 v2, x = .ok t1 → y = .ok t2 →
+      t1.view = .ok v1 → t2.view = .ok v2 → ¬ ∃ σ, TabIso (viewTab v1) (viewTab v2) n σ) ∧
+    (∀ A : Tab, validTable A n rels [] = true → A.size ≤ k →
+      ∃ t' v σ, (Outcome.ok t') ∈ cosetTables n rels k (searchFuel n k) ∧ t'.view = .ok v ∧
+        TabIso A (viewTab v) n σ) :=
+  coset_tables_complete_irredundant n rels k _ hlet (cosetTables_fuel_adequate n rels k)
+
+/-- ✔ **C12 for the model in group-theoretic terms, no hypothesis but the letters** -/
+theorem coset_tables_subgroup_classes_nofuel (n : Nat) (rels : List (List Int)) (k : Nat)
+    (hlet : ∀ w ∈ rels, ∀ x ∈ w, x ∈ allGensOf n) :
+    (∀ x ∈ cosetTables n rels k (searchFuel n k), ∃ (t' : Table) (v : List (List Int))
+      (hv : CosetP.Valid (viewTab v) n rels []),
+      x = .ok t' ∧ t'.view = .ok v ∧ (CosetP.stab0 hv).index = (viewTab v).size ∧
+        (viewTab v).size ≤ max k 1) ∧
+    (cosetTables n rels k (searchFuel n k)).Pairwise (fun x y => ∀ (t1 t2 : Table) (v1 v2 : List (List Int))
+      (hv1 : CosetP.Valid (viewTab v1) n rels []) (hv2 : CosetP.Valid (viewTab v2) n rels []),
+      x = .ok t1 → y = .ok t2 → t1.view = .ok v1 → t2.view = .ok v2 →
+      ¬ SubConj (CosetP.stab0 hv1) (CosetP.stab0 hv2)) ∧
+    (∀ H : Subgroup (CosetSoundP.G n rels), H.index ≠ 0 → H.index ≤ k →
+      ∃ (t' : Table) (v : List (List Int)) (hv : CosetP.Valid (viewTab v) n rels []),
+        (Outcome.ok t') ∈ cosetTables n rels k (searchFuel n k) ∧ t'.view = .ok v ∧
+          SubConj H (CosetP.stab0 hv)) :=
+  coset_tables_subgroup_classes n rels k _ hlet (cosetTables_fuel_adequate n rels k)
 
 /-- ○ `rebase_min_invariant`: the Spec's `canonicalForm` (minimum over all base points of
     the BFS-renumbered table) is a complete invariant of a table up to isomorphism
